@@ -168,7 +168,7 @@ Proof.
     (if m_loop m
      then match m_alts m with
           | [a] => match rloop fuel m a (pos st0) start_tok [] [] st1 with
-                   | (Ok v, st2) => (Ok v, if m_without_invalid m then with_invalid st2 (invalid st) else st2)
+                   | (Ok v, st2) => (Ok (loop_ret m v), if m_without_invalid m then with_invalid st2 (invalid st) else st2)
                    | other => other end
           | _ => (Raise XAssertion, st1) end
      else ralts m (pos st0) start_tok (invalid st) (m_alts m) [] st1) = (Ok v, st') -> invalid st' = invalid st).
